@@ -14,6 +14,8 @@ pub struct Q {
     pub modifier: Option<&'static str>,
     pub ty: Option<&'static str>,
     pub feats: Vec<&'static str>,
+    /// features joined by `or` instead of `and` (type-less level-4 query)
+    pub or: bool,
 }
 
 const FEATS: [&str; 3] = ["(a)", "(b)", "(c)"];
@@ -28,16 +30,16 @@ pub fn alphabet() -> Vec<Q> {
     let mut v = Vec::new();
     for f in subsets() {
         if !f.is_empty() {
-            v.push(Q { modifier: None, ty: None, feats: f });
+            v.push(Q { modifier: None, ty: None, feats: f, or: false });
         }
     }
     for f in subsets() {
-        v.push(Q { modifier: None, ty: Some("all"), feats: f });
+        v.push(Q { modifier: None, ty: Some("all"), feats: f, or: false });
     }
     for t in ["screen", "print"] {
         for m in [None, Some("not"), Some("only")] {
             for f in subsets() {
-                v.push(Q { modifier: m, ty: Some(t), feats: f });
+                v.push(Q { modifier: m, ty: Some(t), feats: f, or: false });
             }
         }
     }
@@ -54,7 +56,7 @@ pub fn text(q: &Q) -> String {
     for f in &q.feats {
         parts.push(f.to_string());
     }
-    parts.join(" and ")
+    parts.join(if q.or { " or " } else { " and " })
 }
 
 /// environment: (type index 0..3 = screen, print, tv; feature truth bits)
@@ -76,6 +78,9 @@ fn eval_parsed(modifier: Option<&str>, ty: Option<&str>, feats: &[String], env: 
 }
 
 fn eval_q(q: &Q, env: (usize, u32)) -> bool {
+    if q.or {
+        return q.feats.iter().any(|f| env.1 & (1 << FEATS.iter().position(|x| x == f).unwrap()) != 0);
+    }
     let feats: Vec<String> = q.feats.iter().map(|s| s.to_string()).collect();
     eval_parsed(q.modifier, q.ty, &feats, env).unwrap()
 }
@@ -111,6 +116,19 @@ fn parse_query(s: &str) -> Option<(Option<String>, Option<String>, Vec<String>)>
 fn eval_list(text: &str, env: (usize, u32)) -> Option<bool> {
     let mut any = false;
     for q in css::split_top(text, ',') {
+        if q.contains(" or ") {
+            // `(a) or (b)`: features only, no `and`
+            if q.contains(" and ") {
+                return None;
+            }
+            let mut t = false;
+            for f in q.split(" or ") {
+                let idx = FEATS.iter().position(|x| *x == f.trim())?;
+                t = t || (env.1 & (1 << idx) != 0);
+            }
+            any = any || t;
+            continue;
+        }
         let (m, t, f) = parse_query(&q)?;
         any = any || eval_parsed(m.as_deref(), t.as_deref(), &f, env)?;
     }
@@ -226,9 +244,14 @@ fn check_case(ctx: &Ctx, sub: &str, levels: &[Vec<&Q>], l: &mut Local) {
     }
     if let Some((env, want, got)) = bad {
         let tyname = ["screen", "print", "tv"][env.0];
+        // one root cause, one key: a merged rule is hoisted out of every enclosing @media whose queries all
+        // occur, as text, among the queries it was merged from -- also out of an outer @media it was never
+        // merged with, when that one merely repeats a query that occurs further in
+        let inner_texts: Vec<String> = levels.iter().skip(1).flat_map(|lv| lv.iter().map(|q| text(q))).collect();
+        let repeated_outer = levels.len() == 3 && levels[0].iter().all(|q| inner_texts.contains(&text(q)));
         ctx.violation(
             sub,
-            &format!("media:{}", src),
+            &if repeated_outer { "media:three-levels:outer-queries-repeated-inside:hoisted".to_string() } else { format!("media:{}", src) },
             &format!(
                 "merged query is not the intersection: in environment type={} a={} b={} c={} source is {} but output is {}",
                 tyname, env.1 & 1 != 0, env.1 & 2 != 0, env.1 & 4 != 0, want, got
@@ -260,6 +283,67 @@ pub fn run(ctx: &Ctx) {
         );
         ctx.bound(sub, "all ordered pairs of the 63-query alphabet, 24 environments each", true);
         ctx.sample(sub, json!({"input": "@media not screen and (a) { .p { @media screen and (b) { x: y } } }"}));
+    }
+    {
+        // level-4 `or` queries: every `(x) or (y)` against every query of the alphabet, both nesting orders,
+        // and against each other
+        let sub = "or-queries";
+        let ors: Vec<Q> = vec![
+            Q { modifier: None, ty: None, feats: vec!["(a)", "(b)"], or: true },
+            Q { modifier: None, ty: None, feats: vec!["(b)", "(c)"], or: true },
+            Q { modifier: None, ty: None, feats: vec!["(a)", "(b)", "(c)"], or: true },
+        ];
+        let no = ors.len() as u64;
+        par(
+            ctx,
+            sub,
+            no * (n + no) * 2,
+            |i| json!({"index": i}),
+            |i, l| {
+                let o = &ors[(i % no) as usize];
+                let j = (i / no) % (n + no);
+                let other = if j < n { &qs[j as usize] } else { &ors[(j - n) as usize] };
+                if (i / no) / (n + no) == 0 {
+                    check_case(ctx, sub, &[vec![o], vec![other]], l);
+                } else {
+                    check_case(ctx, sub, &[vec![other], vec![o]], l);
+                }
+            },
+        );
+        ctx.bound(sub, "3 `(x) or (y)` queries x (the 63-query alphabet + the or-queries) x both nesting orders", true);
+        ctx.sample(sub, json!({"input": "@media (a) or (b) { .p { @media (c) { x: y } } }"}));
+    }
+    {
+        // three levels with lists at the two outer levels over a 6-query sub-alphabet
+        let sub = "list-list-single";
+        let small: Vec<usize> = qs
+            .iter()
+            .enumerate()
+            .filter(|(_, q)| matches!(text(q).as_str(), "not screen" | "(a)" | "(b)" | "(c)" | "screen" | "print and (a)" | "not print and (b)"))
+            .map(|x| x.0)
+            .collect();
+        let m = small.len() as u64;
+        par(
+            ctx,
+            sub,
+            m * m * m * m * m,
+            |i| json!({"index": i}),
+            |i, l| {
+                let pick = |k: u32| &qs[small[((i / m.pow(k)) % m) as usize]];
+                let (a, b, c, d, e) = (pick(0), pick(1), pick(2), pick(3), pick(4));
+                for x in [a, b] {
+                    for y in [c, d] {
+                        if both_not_same(x, y) || both_not_same(x, e) || both_not_same(y, e) {
+                            l.count("excluded_both_negated_same_type", 1);
+                            return;
+                        }
+                    }
+                }
+                check_case(ctx, sub, &[vec![a, b], vec![c, d], vec![e]], l);
+            },
+        );
+        ctx.bound(sub, "all (list of 2) > (list of 2) > single nestings over a 7-query sub-alphabet (not screen, screen, (a), (b), (c), print and (a), not print and (b))", true);
+        ctx.sample(sub, json!({"input": "@media not screen, (a) { .p { @media (a), (b) { @media (c) { x: y } } } }"}));
     }
     if ctx.quick() {
         // comma lists: every pair over a 16-query sub-alphabet (every 4th query) x every single query
